@@ -19,6 +19,7 @@ import (
 )
 
 const tableCap = 65535
+const tableBudgetMs = 25000
 
 type ESpec struct {
 	SIP     [4]byte `json:"sip"`
@@ -45,8 +46,12 @@ type TableIn struct {
 type TableObs struct {
 	Obs     [][]int64 `json:"obs"`
 	Times   []int64   `json:"times"`
+	Ends    []int64   `json:"ends"` // completion time (ms) of every operation
 	PanicAt int       `json:"panic_at"`
 	PanicFn int       `json:"panic_fn"`
+	// DurationMs: wall time of the whole history; beyond tableBudgetMs a "fresh" entry may
+	// have become idle (> 30 s) by the table's own clock and the case is inconclusive
+	DurationMs int64 `json:"duration_ms"`
 	Trace   string    `json:"trace,omitempty"`
 }
 
@@ -161,11 +166,14 @@ func runTable(in TableIn) TableObs {
 		}()
 		if panicked {
 			ob.PanicAt, ob.PanicFn = idx, fn
-			break
+			ob.DurationMs = time.Since(start).Milliseconds()
+			return ob
 		}
 		ob.Obs = append(ob.Obs, res)
 		ob.Times = append(ob.Times, now)
+		ob.Ends = append(ob.Ends, time.Since(start).Milliseconds())
 	}
+	ob.DurationMs = time.Since(start).Milliseconds()
 	return ob
 }
 
